@@ -344,7 +344,7 @@ harness(void)
                     G[ee].hasdata = 1;
                     G[ee].len = 0;
                 }
-                if (!A[a].app && A[a].pos + n > G[ee].len && G[ee].special != 1) {
+                if (!A[a].app && A[a].pos + n > G[ee].len && G[ee].special == 0) {
                     H4V_ASSERT(r == FAIL, "H.write.pastend: write past the end of a non-appendable element must fail");
                     break;
                 }
